@@ -322,8 +322,23 @@ class Quantity:
             raise TypeError('unsupported operand type(s) for *')
         return self._from_si(other * self.si, self.unit)
 
+    # in-place operators mutate the Quantity itself (ndarray semantics), exactly like astropy
+    def __iadd__(self, other):
+        self.si = self.si + self._same_dims(other, 'add')
+        return self
+
+    def __isub__(self, other):
+        self.si = self.si - self._same_dims(other, 'subtract')
+        return self
+
     def __imul__(self, other):
-        return self.__mul__(other)
+        if isinstance(other, (Quantity, Unit)):
+            r = self.__mul__(other)
+            self.si = r.si
+            self.unit = r.unit
+            return self
+        self.si = self.si * other
+        return self
 
     def __truediv__(self, other):
         if isinstance(other, Unit):
@@ -335,7 +350,13 @@ class Quantity:
         return self._from_si(self.si / other, self.unit)
 
     def __itruediv__(self, other):
-        return self.__truediv__(other)
+        if isinstance(other, (Quantity, Unit)):
+            r = self.__truediv__(other)
+            self.si = r.si
+            self.unit = r.unit
+            return self
+        self.si = self.si / other
+        return self
 
     def __rtruediv__(self, other):
         inv = dimensionless_unscaled._times(self.unit, -1)
